@@ -106,7 +106,7 @@ def PROOFS():
     from ..contracts import call_resolver_c, transforms_c, variable_c
     T = "formulae.transforms."
     return [("vf.contracts.call_resolver_c", ["formulae.terms.call_resolver.LazyCall.eval"]),
-            ("vf.contracts.transforms_c", [T + "Center.__call__", T + "Scale.__call__", T + "BSpline.__call__", T + "BSpline.eval",
+            ("vf.contracts.transforms_c", [T + "Center.__call__", T + "Scale.__call__", T + "BSpline.__call__", T + "BSpline._initialize", T + "BSpline.eval",
                                            T + "Polynomial.__init__"]),
             ("vf.contracts.variable_c", [f for f in variable_c.FUNCTIONS if f.endswith("eval_new_data_categoric")])]
 
